@@ -548,6 +548,19 @@ func runC02(c *Ctx) error {
 			}
 		}
 	}
+	// ---- epochs at the ends of their range
+	famE := c.Rep.Family("epoch-boundaries", "exhaustive: epoch in {0, 1, 2147483647, 2147483648, 4294967294, 4294967295} x 5 formats: the epoch the package states vs the configured one (control version prefix / rpm EPOCH tag and the whole rpm header / pkgver); a value the format cannot carry must be refused, not dropped; non-trivial = always")
+	famE.Exhaustive = true
+	for _, ep := range []string{"0", "1", "2147483647", "2147483648", "4294967294", "4294967295"} {
+		for _, f := range Formats {
+			ep := ep
+			s := &PkgSpec{Umask: 0o022, MTime: 1700000000, Mutate: func(info *nfpm.Info) {
+				info.Epoch = ep
+				nfpm.WithDefaults(info)
+			}}
+			metaCase(c, famE, f, s, map[string]any{"epoch": ep})
+		}
+	}
 	// ---- random metadata
 	fam2 := c.Rep.Family("metadata", "random metadata (unicode, multi-line and blank-line descriptions, CRLF, padded values, empty optional fields, relation lists with version constraints and blank items, custom fields incl. reserved ipk names, triggers, ipk alternatives/tags/ABI, rpm group/summary/packager/prefixes, archlinux pkgbase/packager, all version component combinations; every second case with the conventional file name asked of the Info first) x 5 formats: control member bytes vs model, control data parsed by the Lean parsers vs the logical fields the configuration states; non-trivial = every built case")
 	tree, err := MkTree(c.Tmp+"/src", 0)
